@@ -133,13 +133,13 @@ Proof.
 Qed.
 
 Lemma ex_refines :
-  exists s, sys_run ex_g (sys_init ex_calls false) ex_sched = Some s /\ sys_final ex_g s /\
+  exists s, ex_final = Some s /\ sys_final ex_g s /\
             sys_result s 0 = Some (C.ROk "success" 10%Z) /\
             sys_result s 1 = Some (C.ROk "other" 30%Z) /\
             sys_result s 2 = Some (C.RErr C.ErrStep).
 Proof.
   pose proof ex_run_ok as H. destruct ex_final as [s|] eqn:E; [|contradiction].
-  destruct H as (Q & R0 & R1 & R2). exists s. split; [exact E|split; [apply sys_quietb_final; exact Q|auto]].
+  destruct H as (Q & R0 & R1 & R2). exists s. split; [reflexivity|split; [apply sys_quietb_final; exact Q|repeat split; assumption]].
 Qed.
 
 Lemma ex_hyps :
